@@ -362,6 +362,10 @@ def cases(tier, seed):
             if law == "HolzapfelOgden" and Z.dim_of(et) == 2 and (thorough or default_et):
                 # plane strain with a fibre that is not in the plane (still T1 perpendicular to T2, unit length)
                 out.append({"kind": "material", "law": law, "elemType": et, "letters": "reduced", "fibres": "tilted"})
+    # fibre directions given as a per-Gauss-point FIELD of non-unit vectors (documented: normalised by the law)
+    for et in BULK_TYPES:
+        if thorough or et == DEFAULT_ET[Z.dim_of(et)] or et in ("TRI6", "TETRA4"):
+            out.append({"kind": "ho_field", "law": "HolzapfelOgden", "elemType": et})
     # --- operators: level of the state/variant alphabet
     def level(et, default_et, op=""):
         if thorough:
@@ -644,6 +648,51 @@ def _run_material(case):
             "outcome": "violation" if out["viol"] else ("ok" if not ninc else "ok_some_entries_inconclusive"),
             "skipped": None if obs else "no admissible state",
             "info": {"entries": out["entries"], "inconclusive_entries": ninc, "max_truncation_rel": out["trunc"], "inadmissible": out["inadmissible"]}}
+
+
+def _run_ho_field(case):
+    """HolzapfelOgden built with T1, T2 as (Ne, nPg, 3) fields of NON-unit vectors (same directions as the uniform law, lengths varying
+    per element and Gauss point): energy and stress vanish in the reference configuration and W, S, D equal those of the uniform law."""
+    from EasyFEA import MatrixType, Models
+    from EasyFEA.FEM import FeArray
+
+    et = case["elemType"]
+    dim = Z.dim_of(et)
+    X, con = template(et)
+    Xe = X[con]
+    g0 = make_group(et, Xe)
+    nel = Xe.shape[0]
+    nPg = g0.Get_gauss(MatrixType.rigi).nPg
+    T1, T2 = fibres(dim)
+    r = rng("c18hofield", et)
+    f1 = FeArray.asfearray(T1[None, None, :] * r.uniform(0.5, 2.0, size=(nel, nPg, 1)))
+    f2 = FeArray.asfearray(T2[None, None, :] * r.uniform(0.5, 2.0, size=(nel, nPg, 1)))
+    par = dict(C0=0.6, C1=1.1, C2=0.8, C3=0.9, C4=0.5, C5=0.7, C6=0.3, C7=0.6, K=2.5, Mu1=0.4, Mu2=0.3, thickness=THICKNESS)
+    key = dict(law="HolzapfelOgden", elemType=et, fibres="field")
+    v, obs, ntr = [], [], 0
+    try:
+        matF = Models.HyperElastic.HolzapfelOgden(dim, T1=f1, T2=f2, **par)
+    except Exception as err:
+        return {"violations": [], "skipped": f"fibre fields refused: {type(err).__name__}", "fingerprint": "refused", "nontrivial": False, "transitions": 0}
+    matU = make_law("HolzapfelOgden", dim)
+    S = _bulk_states(dim, Xe)
+    s0 = float(np.abs(_np(matU.Compute_d2Wde(state_of(g0, np.zeros(nel * Xe.shape[1] * dim))))).max())
+    for name in ("zero", "inhA", "homF1"):
+        if name not in S or not _admissible(g0, S[name], dim):
+            continue
+        u = _vec(S[name])
+        for nm, fn in (("W", "Compute_W"), ("S", "Compute_dWde"), ("D", "Compute_d2Wde")):
+            a = _np(getattr(matF, fn)(state_of(g0, u)))
+            b = _np(getattr(matU, fn)(state_of(g0, u)))
+            ntr += 2
+            sc = s0 if nm != "W" else s0
+            err = float(np.abs(a - b).max()) if a.shape == b.shape else np.inf
+            obs.append(float(np.abs(b).max()))
+            if err > 1e-10 * sc:
+                v.append(viol("fibre_field", f"HolzapfelOgden {et} at {name}: {nm} with fibre fields of non-unit vectors differs from {nm} with the same uniform unit "
+                                             f"directions by {err:.3e} (scale {sc:.3e})" + ("; the reference configuration is not energy/stress free" if name == "zero" else ""),
+                              quantity=nm, state=name, **key))
+    return {"violations": _cap(v), "fingerprint": fp("ho_field", et, np.array(obs)), "nontrivial": True, "transitions": ntr, "outcome": "ok" if not v else "violation"}
 
 
 # ------------------------------------------------------------------------------------------------
